@@ -2,3 +2,5 @@ import MistuneProofs.C18
 import MistuneProofs.C18Quote
 import MistuneProofs.C18Unikey
 import MistuneProofs.C16
+import MistuneProofs.UnicodeSound
+import MistuneProofs.Oblig.Unicode
